@@ -232,6 +232,32 @@ def default_arg(kind, d, qnames):
   raise ValueError(k)
 
 
+def reported_slots(c, sample, qslots):
+  """the order in which `get_quantizers()` lists the quantizer slots of a class: every reported
+  object is identified, by identity, with the `<slot>_quantizer` constructor argument it was passed
+  as (classes without `get_quantizers`: []).  QBatchNormalization refuses gamma / variance together
+  with inverse, so the slots are observed in two builds and merged by position."""
+  import qkeras as Q
+  def observe(slots):
+    objs = {s: Q.quantized_bits(4, 0, 1, alpha=1.0) for s in slots}
+    layer = c(**dict(sample, **dict({s: None for s in qslots if s not in slots}, **objs)))
+    if not hasattr(layer, "get_quantizers"):
+      return None
+    return [next((s for s in slots if objs[s] is r), None) for r in layer.get_quantizers()]
+  try:
+    seen = [observe(qslots)]
+  except (ValueError, AssertionError):
+    rest = [s for s in qslots if s != "inverse_quantizer"]
+    seen = [observe(rest), observe([s for s in qslots if s not in ("gamma_quantizer", "variance_quantizer")])]
+  if seen[0] is None:
+    return []
+  out = []
+  for i in range(max(len(x) for x in seen)):
+    names = [x[i] for x in seen if i < len(x) and x[i] is not None]
+    out.append(names[0] if names else "?")
+  return out
+
+
 def layer_table():
   import tensorflow as tf
   co = custom_objects()
@@ -262,7 +288,8 @@ def layer_table():
     none_lin = False
     if "activation" in pnames and n not in ("QActivation", "QAdaptiveActivation", "QBatchNormalization"):
       none_lin = cfg.get("activation") == "linear"
-    out.append({"name": n, "params": params, "none_is_linear": none_lin, "hook": HOOK.get(n, 0)})
+    out.append({"name": n, "params": params, "none_is_linear": none_lin, "hook": HOOK.get(n, 0),
+                "reports": reported_slots(c, SAMPLE_ARGS[n], [p["name"] for p in params if p["kind"]["k"] == "quant"])})
   del tf
   return out
 
@@ -363,6 +390,11 @@ def emit_lean(t):
              % (l["name"], lean_str(l["name"]), ",\n      ".join(ps), "true" if l["none_is_linear"] else "false",
                 l["hook"]))
   o.append("def lSpecs : List LSpec :=\n  [%s]\n" % ", ".join("ls_" + l["name"] for l in t["layers"]))
+  o.append("/-- per layer class: the quantizer slots in the order `get_quantizers()` lists them (`self.quantizers`;\n"
+           "    [] = the class has no `get_quantizers`), observed live by object identity -/\n"
+           "def reportedSlots : List (String × List String) :=\n  [%s]\n"
+           % ",\n   ".join("(%s, [%s])" % (lean_str(l["name"]), ", ".join(lean_str(k) for k in l["reports"]))
+                           for l in t["layers"]))
   o.append("/-- keys of `_add_supported_quantized_objects`, in insertion order -/\n"
            "def customObjects : List String :=\n  [%s]\n" % ", ".join(lean_str(k) for k in t["custom_objects"]))
   o.append("/-- the built-in activation names of Keras (public functions of `tf.keras.activations`) -/\n"
